@@ -388,10 +388,16 @@ impl MemAddr {
     /// the client's end of a new connection; ConnectionRefused once the listener is gone
     pub fn connect(&self) -> io::Result<MemStream> {
         match self.l.upgrade() {
-            None => Err(io::Error::new(ErrorKind::ConnectionRefused, "connection refused")),
+            None => {
+                // (marker for mech/ServerLife: the attempt is refused at this instant)
+                crate::mark("net.connect", &[("ok", 0)]);
+                Err(io::Error::new(ErrorKind::ConnectionRefused, "connection refused"))
+            }
             Some(l) => {
                 let (c, s) = MemStream::pair();
                 l.backlog.lock().unwrap().push_back(s);
+                // (marker for mech/ServerLife: the connection enters the accept queue at this instant)
+                crate::mark("net.connect", &[("ok", 1)]);
                 wake(l.id);
                 // scheduling point: the accepting thread may get going before connect() returns to its caller
                 if let Some((rt, me)) = crate::cur() {
